@@ -3,6 +3,7 @@ package rules
 import (
 	"go/ast"
 	"go/types"
+	"strings"
 
 	"engcheck/core"
 )
@@ -63,12 +64,12 @@ func c04Writers(c *core.Ctx) {
 			if isClientsExpr(u, cl.Recv) && mapWriters[cl.Name] {
 				nT++
 				c.Touch(u)
-				c.Check(R, keyf("%s/clients.%s", u.Key, cl.Name), cl.Pos(), u.Root().Key == bsHandshake, "client table written only by Handshake")
+				c.Check(R, keyf("%s/clients.%s", u.Key, cl.Name), cl.Pos(), inHandshake(u), "client table written only by Handshake")
 			}
 			if fieldOf(info, cl.Recv) == "baseServer.clientsCount" && cl.Name != "Load" {
 				nC++
 				c.Touch(u)
-				c.Check(R, keyf("%s/clientsCount.%s", u.Key, cl.Name), cl.Pos(), u.Root().Key == bsHandshake, "client counter written only by Handshake")
+				c.Check(R, keyf("%s/clientsCount.%s", u.Key, cl.Name), cl.Pos(), inHandshake(u), "client counter written only by Handshake")
 			}
 		}
 	}
@@ -335,4 +336,11 @@ func c04IdUse(c *core.Ctx) {
 			tupleOf(u, ns[0].Arg(0), gen.Expr, 0)
 	}
 	c.Check(R, bsHandshake+"/id-error-aborts", u.Pos(), ok, "NewSocket receives the generated id and runs only when generation succeeded")
+}
+
+// inHandshake: the unit is Handshake, one of its closures, or a closure of it
+// that became a method / function and was recovered under its closure key.
+func inHandshake(u *core.Unit) bool {
+	k := u.Root().Key
+	return k == bsHandshake || strings.HasPrefix(k, bsHandshake+"$")
 }
